@@ -369,6 +369,7 @@ type ChanClass struct {
 type FuncSpec struct {
 	Key       string
 	Requires  []*Clause
+	Defines   []*Clause // provenance predicates: assumed at call sites, definitional (not checked in the body)
 	Captures  []*Clause // closure preconditions over captured variables: proved where the closure is created
 	Ensures   []*Clause
 	LoopInv   map[int][]*Clause
@@ -522,6 +523,15 @@ func (sp *Specs) readFile(path string) error {
 			}
 			sp.Funcs[rest] = cur
 			curLock, curLemma = nil, nil
+		case "defines":
+			if cur == nil {
+				return fail("defines outside func")
+			}
+			c, err := mk("defines", rest)
+			if err != nil {
+				return err
+			}
+			cur.Defines = append(cur.Defines, c)
 		case "captures":
 			if cur == nil {
 				return fail("captures outside func")
